@@ -1137,7 +1137,47 @@ struct Conn {
 pub fn run_states(tape: &mut Tape, props: Props, thorough: bool, trace_on: bool) -> Outcome {
     let (mut c, su) = setup(tape, props, trace_on, Mode::States);
     let desc = su.desc.clone();
-    let r = states_body(&mut c, &su, thorough);
+    let mut r = states_body(&mut c, &su, thorough);
+    // epilogue (C10): the application replaces the interface's address and aborts whatever the socket was doing
+    // before the next poll - nothing may leave from the address the interface no longer has
+    if r.is_ok() && c.props.has("C10") && c.tape.draw(3) == 0 {
+        r = (|| -> Result<(), Violation> {
+            let old = c.v_addr;
+            let new = match old {
+                IpAddr::V4(mut a) => {
+                    a[3] = a[3].wrapping_add(40);
+                    IpAddr::V4(a)
+                }
+                IpAddr::V6(mut a) => {
+                    a[15] = a[15].wrapping_add(40);
+                    IpAddr::V6(a)
+                }
+            };
+            let (o, n) = (to_smol(&old), to_smol(&new));
+            let iface = &mut c.node.iface;
+            guard("Interface::update_ip_addrs", || {
+                iface.update_ip_addrs(|a| {
+                    for x in a.iter_mut() {
+                        if x.address() == o {
+                            *x = smoltcp::wire::IpCidr::new(n, x.prefix_len());
+                        }
+                    }
+                })
+            })?;
+            for x in c.view.addrs.iter_mut() {
+                if x.0 == old {
+                    x.0 = new;
+                }
+            }
+            let s = c.sock();
+            guard("tcp::abort", || s.abort())?;
+            c.stats.inc("c10.address-replaced-then-abort");
+            c.poll()?;
+            c.now += 1_000_000;
+            c.poll()?;
+            Ok(())
+        })();
+    }
     let nontrivial = c.stats.get("c17.transitions") >= 2 && c.stats.get("c17.stimuli") >= 10;
     let v = r.err();
     outcome(c, v, nontrivial, desc)
